@@ -261,6 +261,30 @@ def NRT.generateNewBijection (n : NRT) (p : PortSpec) (a : Nat) : NRT × Storage
     | none => ⟨[], [cb], [0]⟩
   ({ n with invMap := imSet n.invMap a ⟨ns.callbacks.length - 1, none, none⟩ }, ns)
 
+/-- second half of `useFreeID` (from `auto imap = inv_map[addr]` on): insert the mapping
+    entry, `killMap` the entry it replaces, update `inv_map`, send the `midi-bind`. -/
+def NRT.finishLearn (n : NRT) (ns : Storage) (a : Nat) (coarse : Bool) (id : Nat) :
+    Option (NRT × List RtMsg) :=
+  match imLookup n.invMap a with
+  | none => none                                      -- unreachable: just inserted / found
+  | some im =>
+    let ns : Storage := { ns with mapping := ns.mapping ++ [⟨id, coarse, im.slot⟩] }
+    let killed : Option Storage :=
+      if coarse then
+        match im.coarse with
+        | some old => (killMap old ns.mapping).map (fun mp => { ns with mapping := mp })
+        | none => some ns
+      else
+        match im.fine, im.coarse with
+        | some _, some oldc => (killMap oldc ns.mapping).map (fun mp => { ns with mapping := mp })
+        | some _, none => none      -- `killMap(-1, …)`: no entry carries -1 → overflow
+        | none, _ => some ns
+    match killed with
+    | none => none
+    | some ns =>
+      let im' : Imap := if coarse then { im with coarse := some id } else { im with fine := some id }
+      some ({ n with invMap := imSet n.invMap a im', storage := some ns }, [.bind ns (some id)])
+
 /-- `MidiMappernRT::useFreeID`; `ports[a] = none` models `apropos` returning NULL (crash). -/
 def NRT.useFreeID (ports : List PortSpec) (n : NRT) (id : Nat) : Option (NRT × List RtMsg) :=
   match n.learnQ with
@@ -276,26 +300,7 @@ def NRT.useFreeID (ports : List PortSpec) (n : NRT) (id : Nat) : Option (NRT × 
         | some _ => n.storage.map (fun st => (n, st.clone))   -- `storage->clone()`
       match r with
       | none => none
-      | some (n, ns) =>
-        match imLookup n.invMap a with
-        | none => none                                      -- unreachable: just inserted / found
-        | some im =>
-          let ns : Storage := { ns with mapping := ns.mapping ++ [⟨id, coarse, im.slot⟩] }
-          let killed : Option Storage :=
-            if coarse then
-              match im.coarse with
-              | some old => (killMap old ns.mapping).map (fun mp => { ns with mapping := mp })
-              | none => some ns
-            else
-              match im.fine, im.coarse with
-              | some _, some oldc => (killMap oldc ns.mapping).map (fun mp => { ns with mapping := mp })
-              | some _, none => none      -- `killMap(-1, …)`: no entry carries -1 → overflow
-              | none, _ => some ns
-          match killed with
-          | none => none
-          | some ns =>
-            let im' : Imap := if coarse then { im with coarse := some id } else { im with fine := some id }
-            some ({ n with invMap := imSet n.invMap a im', storage := some ns }, [.bind ns (some id)])
+      | some (n, ns) => n.finishLearn ns a coarse id
 
 /-! ## The realtime half -/
 
@@ -329,6 +334,12 @@ def RT.handleCC (r : RT) (id val : Nat) : Option (RT × Option Msg × Option Nat
     if !r.pending.contains id ∧ r.watch ≠ 0 then
       some ({ storage := st', pending := pendInsert r.pending id, watch := r.watch - 1 }, none, some id)
     else some ({ r with storage := st' }, none, none)
+
+/-- does the snapshot held by the realtime half carry an entry for this controller? -/
+def RT.knows (r : RT) (id : Nat) : Bool :=
+  match r.storage with
+  | none => false
+  | some st => st.mapping.any (fun m => m.id == id)
 
 /-- the `midi-add-watch` and `midi-bind:b` ports -/
 def RT.recv (r : RT) : RtMsg → Option RT
@@ -393,6 +404,36 @@ def run (ports : List PortSpec) : Sys → List Op → Option (Sys × List (List 
       | none => none
       | some (s'', outs) => some (s'', out :: outs)
 
+/-! ## Specification vocabulary
+
+  What the property talks about, independent of how the code stores it: which parameter a
+  controller drives according to a snapshot, and how a 14-bit value is composed. -/
+
+/-- the parameter (address, coarse?) that controller `id` drives according to snapshot `st` -/
+def Storage.binding (st : Storage) (id : Nat) : Option (Nat × Bool) :=
+  match st.mapping.find? (fun e => e.id == id) with
+  | none => none
+  | some e => (st.callbacks[e.slot]?).map (fun cb => (cb.addr, e.coarse))
+
+/-- what the non-realtime half has decided -/
+def NRT.binding (n : NRT) (id : Nat) : Option (Nat × Bool) :=
+  match n.storage with
+  | none => none
+  | some st => st.binding id
+
+/-- what the realtime half currently acts on -/
+def RT.binding (r : RT) (id : Nat) : Option (Nat × Bool) :=
+  match r.storage with
+  | none => none
+  | some st => st.binding id
+
+/-- 14-bit value: the incoming 7-bit value `v` in the coarse (upper) or fine (lower) half,
+    `o` in the other half -/
+def compose14 (coarse : Bool) (v o : Nat) : Nat := if coarse then v * 128 + o else o * 128 + v
+
+/-- both channels are empty: nothing is under way between the halves -/
+def Sys.quiescent (s : Sys) : Prop := s.toRT = [] ∧ s.toNRT = []
+
 /-! ## Hazards: the two known defect classes, as decidable predicates of a step -/
 
 /-- K1 (DESIGN K7): a `/midi-use-CC` request reaches `useFreeID` while the learn queue is
@@ -411,10 +452,7 @@ def hazardK2 (s : Sys) : Op → Bool
     | .bind _ none :: _ => !s.rt.pending.isEmpty
     | _ => false
   | .cc id _ =>
-    let unhandled := match s.rt.storage with
-      | none => true
-      | some st => !(st.mapping.any (fun m => m.id == id))
-    unhandled && !s.rt.pending.contains id && s.rt.watch != 0 && s.rt.pending.length > 31
+    !s.rt.knows id && !s.rt.pending.contains id && s.rt.watch != 0 && s.rt.pending.length > 31
   | _ => false
 
 def hazard (s : Sys) (op : Op) : Bool := hazardK1 s op || hazardK2 s op
